@@ -5,6 +5,9 @@ CONSTANTS Flows = {1, 2}
           InitRules <- Rules_o_i
           RuleSets <- SomeRules2
           Reloads = TRUE
+          Cfgs <- NoCfgs
+          InitCfg = 0
+          EffOf <- EffNone
           VerMod = 3
           Gaps = {2}
           MaxItems = 3
